@@ -16,6 +16,8 @@ import (
 
 const verifDir = "/verif"
 
+var outDir = envOr("PVERIF_OUT", filepath.Join(verifDir, "evidence"))
+
 type PropFunc struct {
 	Pkg  string `json:"pkg"`
 	Name string `json:"name"`
@@ -290,12 +292,16 @@ func (vc *VC) evalEntry(text string) (string, error) {
 	if err != nil {
 		return "", err
 	}
-	if vc.top == nil {
-		return "", fmt.Errorf("no function frame")
+	var ctx *SpecCtx
+	if vc.entryCtx != nil {
+		ctx = vc.entryCtx
+	} else if vc.top != nil {
+		fr := vc.top
+		lk := func(name string) (Val, bool) { return vc.paramLookup(fr, name) }
+		ctx = &SpecCtx{vc: vc, lookup: lk, st: fr.entrySt, oldSt: fr.entrySt, oldLookup: lk, pkg: fr.fn.Pkg.Pkg}
+	} else {
+		return "", fmt.Errorf("no entry context")
 	}
-	fr := vc.top
-	lk := func(name string) (Val, bool) { return vc.paramLookup(fr, name) }
-	ctx := &SpecCtx{vc: vc, lookup: lk, st: fr.entrySt, oldSt: fr.entrySt, oldLookup: lk, pkg: fr.fn.Pkg.Pkg}
 	nlines := len(vc.lines)
 	t, err := ctx.EvalBool(e)
 	if len(vc.lines) != nlines {
@@ -488,14 +494,14 @@ func (r *checkRun) writeEvidence(cov map[string]interface{}, violations int, ass
 		"property_id": r.prop.ID, "tier": r.tier, "seed": r.seed, "level": "proof",
 		"coverage": cov, "assumptions": assumptions, "wall_s": round2(time.Since(r.start).Seconds()), "violations": violations,
 	}
-	os.MkdirAll(filepath.Join(verifDir, "evidence"), 0o755)
+	os.MkdirAll(outDir, 0o755)
 	data, _ := json.MarshalIndent(ev, "", " ")
-	os.WriteFile(filepath.Join(verifDir, "evidence", r.prop.ID+".json"), data, 0o644)
+	os.WriteFile(filepath.Join(outDir, r.prop.ID+".json"), data, 0o644)
 }
 
 func replayPath(id, name string) string {
 	safe := strings.NewReplacer("/", "_", "#", "-", "*", "_", "(", "", ")", "", " ", "_", "$", "_", "@", "-").Replace(name)
-	dir := filepath.Join(verifDir, "evidence", "replay")
+	dir := filepath.Join(outDir, "replay")
 	os.MkdirAll(dir, 0o755)
 	return filepath.Join(dir, id+"-"+safe+".json")
 }
